@@ -479,6 +479,10 @@ func (w *world) matchWire(v interface{}, t *Ty, raw json.RawMessage, path string
 			r, present := xs[f.Name]
 			if !present {
 				r = nil
+				// only an absent optional may be left out: every other declared field name must be on the wire
+				if rt := w.resolve(f.T); !(rt != nil && rt.K == kMaybe && sv.Vals[i] == nil) {
+					return fmt.Sprintf("%s.%s: declared field is missing on the wire", path, f.Name)
+				}
 			}
 			if d := w.matchWire(sv.Vals[i], f.T, r, path+"."+f.Name); d != "" {
 				if !present {
